@@ -6,7 +6,7 @@ meta.json["reverify"]. Worktrees are removed afterwards. Seeds whose patch no lo
 underneath) are reported as `stale`."""
 import sys, os, json, subprocess, shutil, time
 
-ROOT = "/tmp/reseed"
+ROOT = f"/tmp/reseed-{os.getpid()}"
 env = dict(os.environ, GOFLAGS="-mod=mod", GOPROXY="off")
 
 
